@@ -14,6 +14,8 @@ package network
 //@   assumed
 //@   modifies lastDecodeErr, alloc
 //@   ghost lastDecodeErr := result1
+//@   -- (C01) what the one implementation, message/v2.MessageHandler.FromMsgReader, is verified to ensure
+//@   ensures result1 == nil ==> (forall k cid.Cid :: k in result0.blocks ==> blkCid(result0.blocks[k]) == k && isSumOf(k, blkData(result0.blocks[k])))
 //@ func github.com/libp2p/go-libp2p/core/network.MuxedStream.Reset
 //@   assumed
 //@   modifies nReset
@@ -39,6 +41,8 @@ package network
 //@   modifies lastDecodeErr, lastPanicErr, nReset, spawned, alloc
 //@   -- only what decoded is delivered, as coming from the stream's remote peer
 //@   callsite Receiver.ReceiveMessage: assert lastDecodeErr == nil && $incoming == received && $sender == p
+//@   -- (C01) every block of a delivered message is filed under, and hashes to, its own CID
+//@   callsite Receiver.ReceiveMessage: assert forall k cid.Cid :: k in $incoming.blocks ==> blkCid($incoming.blocks[k]) == k && isSumOf(k, blkData($incoming.blocks[k]))
 //@   loop 1 invariant nReset == old(nReset) && spawned == old(spawned)
 //@   -- a decode failure other than end-of-stream: reset + receive error (the deferred recovery may add its own)
 //@   ensures (gsnet.receiver != nil && lastDecodeErr != io.EOF) ==> nReset >= old(nReset) + 1 && spawned >= old(spawned) + 1
